@@ -47,10 +47,22 @@ CFG = {'harness': 'apps',
                'counter-0 marker / a first marker with the top bit set; the result depends only on the per-board '
                'concatenation (= resume-protocol parse, C07). Unbounded streams, any number of wraps below 2^23 '
                'markers.',
- 'level_note': 'trusted: Coq kernel; hand model tied by differential runs against the real binary (exit status, absence of '
+ 'level_note': 'marker-fault clause proved for the hardware model + valid-word damage (see level_extra); trusted: Coq kernel; hand model tied by differential runs against the real binary (exit status, absence of '
                'the CSV on failure, every row and time); hardware model as premise; float printing checked row by row; '
                'extraction; harness',
  'note': 'exit status / absence of CSV and the rows (board, channel, edge, ticks) of the real binary and of the proved '
          'model must agree; hardware-model lines must also agree with the event-level specification'}
 
-CFG["level_extra"] = ('NOTE: the time-correctness theorems require fault-free marker sequences; dropped / duplicated markers are covered by the measured relation rel20some only (no wrong non-empty time), truncated tails and corrupted words by the failure theorems.')
+CFG["level_extra"] = ('single marker faults (C20_fault_burst_no_wrong_time, C20_single_marker_fault_no_wrong_time, '
+                      'C20_spurious_marker_no_wrong_time; fault model Apps/CbFaults.v): ONE contiguous stretch of a well-formed '
+                      'hardware stream replaced by an arbitrary sequence of valid 4-byte words - marker dropped, duplicated '
+                      '(twice in a row or a copy anywhere), corrupted into any other valid marker word (any counter, any top '
+                      'bit) or into a valid timestamp word, an edge word turned into a marker - under any cutting into banks: '
+                      'the run fails as a whole, or the rows correspond one to one to the timestamp words after the first '
+                      'counter-0 marker and EVERY SURVIVING EDGE has an empty time or its true time, never another value '
+                      '(PROVED, no longer only measured by rel20some). Stated for the run of one board (the faulted board; other '
+                      'boards contribute their own rows independently by C20_cb_rows_complete). NOT covered by a theorem: a word '
+                      'corrupted into the scaler-block tag 0xFE00003C (swallows the next 240 bytes) and corruptions that leave an '
+                      'invalid word are failure/resynchronisation cases (failure theorems + differential); the clause is about ONE '
+                      'fault: two corrupted markers on either side of an edge DO give a wrong time '
+                      '(Example C20_two_faults_wrong_time, reproduced on the real binary, corpus/C20/marker_faults.case line 1).')
